@@ -710,6 +710,10 @@ partial def expr (j : Json) : Except String Expr :=
     if let .ok v := get "len" then return .len (← expr v)
     if let .ok v := get "istuple" then return .isTuple (← expr v)
     if let .ok v := get "isnone" then return .isNone (← expr v)
+    if let .ok v := get "ite" then
+      match (← v.getArr?).toList with
+      | [c, a, b] => return .ite (← expr c) (← expr a) (← expr b)
+      | _ => throw "expected three operands"
     if let .ok v := get "t" then return .tuple (← (← v.getArr?).toList.mapM expr)
     if let .ok v := get "l" then return .list (← (← v.getArr?).toList.mapM expr)
     if let .ok v := get "sl" then
